@@ -165,14 +165,16 @@ Definition convert_number (ty : ntype) (o : forc) (t : bytes) : cres nval :=
   end.
 
 (* mpt_convert_string(from, numeric type): result as the text convertable (iterConv) reports it:
-   an error, 0 for the empty text, or 's' with the destination written (CVal) or not (CKeep: white space only) *)
+   an error, 0 for the empty or white-space-only text, or 's' with the destination written (CVal) *)
 Definition text_number (ty : ntype) (o : forc) (t : bytes) : cres nval :=
   match t with
   | [] => CZero
   | _ =>
     match convert_number ty o (skip_space t) with
     | CErr e => CErr e
-    | CZero | CKeep => CKeep
+    (* AS PATCHED by docs/C07_convert_string_space.diff: white space only = nothing converted, like the empty text
+       (before: the count of blanks was reported as a conversion that assigned nothing, CKeep) *)
+    | CZero | CKeep => CZero
     | CVal v => CVal v
     end
   end.
